@@ -530,6 +530,68 @@ fn unrelated_calls(rng: &mut Rng, keys: &[TKey], iss: &Issuers) {
 	}
 }
 
+/// Directed: texts rcgen may refuse or must keep. Distribution-point URIs that are not plain ASCII URIs (non-ASCII,
+/// blanks, upper case, escapes): if an artefact is produced, the object reports the parameters as given - a "helpful"
+/// repair written back into them is an alteration - and the same call twice gives the same to-be-signed bytes.
+fn reported_params_directed(ctx: &Ctx, keys: &[TKey], iss: &Issuers) {
+	let uris = [
+		"http://b\u{fc}cher.example/\u{e4}.crl",
+		"http://example.com/a b.crl",
+		" http://example.com/x.crl ",
+		"HTTP://EXAMPLE.COM/X.CRL",
+		"http://example.com/%C3%A4.crl",
+		"http://example.com/\u{20ac}",
+		"",
+	];
+	for (n, u) in uris.iter().enumerate() {
+		for kind in 0..3u64 {
+			let case = CaseId::new("reported-params", ctx.seed, n as u64 * 3 + kind);
+			let text = format!("distribution point URI {:?} in a {}", u, ["self-signed certificate", "issued certificate", "CRL (issuing distribution point)"][kind as usize]);
+			ctx.count("eval:reported-params");
+			let run = || -> Result<(Vec<u8>, bool), String> {
+				let ik = &keys[iss.keys[0]];
+				if kind < 2 {
+					let mut p = CertificateParams::default();
+					p.serial_number = Some(SerialNumber::from_slice(&[3, n as u8]));
+					p.key_identifier_method = default_kid().to_rcgen();
+					p.crl_distribution_points = vec![CrlDistributionPoint { uris: vec![u.to_string()] }];
+					let input = p.clone();
+					let cert = if kind == 0 { p.self_signed(&ik.kp) } else { p.signed_by(&ik.kp, &iss.certs[0], &ik.kp) }.map_err(|e| e.to_string())?;
+					let (tbs, _, _) = x509::split_signed_raw(cert.der(), true)?;
+					Ok((tbs, cert.params() == &input))
+				} else {
+					let mk = || CertificateRevocationListParams {
+						this_update: TimeSpec::utc(1_700_000_000).to_time().unwrap(),
+						next_update: TimeSpec::utc(1_700_086_400).to_time().unwrap(),
+						crl_number: SerialNumber::from_slice(&[5]),
+						issuing_distribution_point: Some(CrlIssuingDistributionPoint { distribution_point: CrlDistributionPoint { uris: vec![u.to_string()] }, scope: None }),
+						revoked_certs: vec![],
+						key_identifier_method: default_kid().to_rcgen(),
+					};
+					let before = format!("{:?}", mk());
+					let crl = mk().signed_by(&iss.certs[0], &ik.kp).map_err(|e| e.to_string())?;
+					let (tbs, _, _) = x509::split_signed_raw(crl.der(), true)?;
+					Ok((tbs, format!("{:?}", crl.params()) == before))
+				}
+			};
+			match (crate::guard(&run), crate::guard(&run)) {
+				(Err(p), _) | (_, Err(p)) => ctx.violation("c15:panic", &case, &text, &p),
+				(Ok(Err(_)), Ok(Err(_))) => ctx.count("reported-params:refused"),
+				(Ok(Ok((t1, kept1))), Ok(Ok((t2, kept2)))) => {
+					ctx.count("reported-params:produced");
+					if !kept1 || !kept2 {
+						ctx.violation("c15:params-altered", &case, &text, "the returned object reports parameters different from the ones given");
+					}
+					if t1 != t2 {
+						ctx.violation("c15:tbs-differs:repeat", &case, &text, "the same call twice gave different to-be-signed bytes");
+					}
+				},
+				_ => ctx.violation("c15:verdict-differs:repeat", &case, &text, "the same call was refused once and accepted once"),
+			}
+		}
+	}
+}
+
 /// C15 in one process: history part + thread part. Returns the events for the offline checker.
 pub fn run_c15(ctx: &Ctx, keys: &[TKey], k: usize, thread_counts: &[usize], rounds: usize, proc_id: u64) -> Vec<Event> {
 	let iss = match issuers(keys) {
@@ -540,6 +602,9 @@ pub fn run_c15(ctx: &Ctx, keys: &[TKey], k: usize, thread_counts: &[usize], roun
 		},
 	};
 	let portable_only = !cfg!(feature = "crypto");
+	if ctx.replay.as_ref().map_or(true, |r| r.workload == "reported-params") {
+		reported_params_directed(ctx, keys, &iss);
+	}
 	let tab = table(ctx.seed, k, keys.len(), portable_only);
 	let start = std::time::Instant::now();
 	let events: Mutex<Vec<Event>> = Mutex::new(Vec::new());
